@@ -1,38 +1,9 @@
 """
-C14 (wire half) - delimited types on the wire.
+C14 - Delimited (appendable) types evolve without breaking containers or the wire.
 
-Contracts in specs/c06.py tagged C14: the bounded sub-reader (a nested delimited object is read through a reader limited to
-8 * header bits; reads beyond the limit yield zeros; the parent is advanced past exactly those bits), the delimited branch of
-_deserialize_composite / deserialize (offset after = before + 32 + 8 * header whatever the inner type is; header larger than
-the remaining data is rejected) and the bit writer.  The layout half (container bit length sets / offsets depend only on the
-extent of a nested delimited type) belongs to the C02/C08 contracts and is not part of this module.
+  * wire half: specs/c14_wire.py (contracts of pydsdl/_serdes.py tagged C14, in specs/c06.py);
+  * layout half (container bit length set / extent / following offsets depend only on the extent of a nested delimited
+    type): HOOK - to be added here by the coordinator on top of the C02/C08 contracts (specs/c02.py tags them with C14).
 """
-from . import c06 as _c
-from .c06 import LEAN, LEVEL, NATIVE_BUDGET  # noqa
-from pyvc.native import NativeSuite
-
-NATIVE = NativeSuite()
-for _q, _g, _b in _c.NATIVE.cases:
-    if "_BitReader" in _q or "_BitWriter" in _q or _q.endswith("_deserialize_composite") or _q.endswith(".deserialize"):
-        NATIVE.add(_q, _g, _b)
-
-
-def _bounded_c14(eng, tier, seed):
-    r = _c._bounded_codec(eng, tier, seed)
-    r["name"] = "C14 part (delimited evolution pairs) of the " + r["name"]
-    return r
-
-
-EXTRA_CHECKS = [_bounded_c14]
-NOT_COVERED = _c.NOT_COVERED_C14
-EXPLANATION = _c.EXPLANATION_C14
-ASSUMPTIONS = _c.ASSUMPTIONS
-
-# The frozen draft of specs/c02.py tags the layout-half contracts (DelimitedType.__init__ ...) with C14; they are being
-# completed by the coordinator and do not verify in this worktree.  This module checks the wire half only: the C14 tag of
-# the c02 contracts is dropped here (in memory) so that `./check C14` reports the wire half; remove this when c02 is merged.
-from pyvc.spec import REG as _REG
-
-for _q, _ct in _REG.contracts.items():
-    if getattr(_ct.impl, "__module__", "") == "specs.c02" and "C14" in _ct.props:
-        _ct.props = [p for p in _ct.props if p != "C14"]
+from .c14_wire import *  # noqa: F401,F403
+from .c14_wire import LEAN, LEVEL, NATIVE, NATIVE_BUDGET, EXTRA_CHECKS, NOT_COVERED, EXPLANATION, ASSUMPTIONS  # noqa
